@@ -311,6 +311,41 @@ func (m c16) positive(c *fw.Ctx, n int, alpha string, sub int64) {
 		}
 	}
 
+	// 2b. decoding one Origin must not disturb a copy that shares its block
+	// (the reader hands out records whose Origin shares the scanner's buffer;
+	// seqio.GenBank is copied by value all over the library).
+	c.Bucket("api|decode-does-not-clobber-shared-block")
+	{
+		shared := append([]byte(nil), block...)
+		a := &seqio.Origin{Buffer: shared, Parsed: false}
+		b := *a
+		var decA, decB []byte
+		var strB string
+		pn, val, site, stack := fw.Guard(func() {
+			decA = a.Bytes()
+			strB = b.String()
+			decB = b.Bytes()
+		})
+		if pn {
+			c.ViolateX("origin-shared-block:"+panicClass(site, val), enc, "no panic", fmt.Sprint(val), stack, nil)
+			return
+		}
+		switch {
+		case !bytes.Equal(decA, p):
+			bad("shared-block:first-decode-differs", p, decA)
+			return
+		case strB != string(block):
+			bad("shared-block:undecoded-copy-prints-differently-after-the-other-was-decoded", block, []byte(strB))
+			return
+		case !bytes.Equal(decB, p):
+			bad("shared-block:second-decode-differs", p, decB)
+			return
+		case !bytes.Equal(shared, block):
+			bad("shared-block:block-bytes-changed-by-decoding", block, shared)
+			return
+		}
+	}
+
 	// 3. both reading paths on the same block; the slow path also on the CRLF twin.
 	crlf := model.CRLF(block)
 	{
